@@ -75,12 +75,14 @@ func main() {
 }
 
 func c15(c *Ctx) {
-	c.Rule = "upload sessions: 1..4 files (sizes 1 byte .. 3 chunk sizes, chunk sizes 1/7/64/4096, names and alarm ids over arbitrary bytes incl. 30 31 63 64), 0x1210 / optional 0x1211 / chunks / 0x1212 (+ resend and a second 0x1212 when tiles were withheld), all chunk orders for <= 4 chunks (exhaustive), duplicates before and after completion, five dialects (HLJ length-prefixed chunk header), both header versions, non-uniform splits (random cut points) with a second 0x1210 in mid-session, file names of every length up to the header limits; a zero-length chunk before a 0x1212 (known finding), a 0x1212 for a never announced file after a real one (known finding), NUL-ended file names (correspondence only), 126..255 single-byte gaps (0x9212 bodies over 1023 bytes: correspondence of the bytes only); each stream fed unit by unit, coalesced into one read, with every 1-cut (short streams), byte by byte (short streams) and random k-cuts; plus malformed streams (garbage, truncated frames, unknown ids, chunks of unknown files, bad 0x1210 bodies) for the correspondence. A case is non-trivial when the stream holds at least one chunk and one control frame; distinct = distinct request lines"
+	c.Rule = "upload sessions: 1..4 files (sizes 1 byte .. 3 chunk sizes, chunk sizes 1/7/64/4096, names and alarm ids over arbitrary bytes incl. 30 31 63 64), 0x1210 / optional 0x1211 / chunks / 0x1212 (+ resend and a second 0x1212 when tiles were withheld), all chunk orders for <= 4 chunks (exhaustive), duplicates before and after completion, five dialects (HLJ length-prefixed chunk header), both header versions, non-uniform splits (random cut points) with a second 0x1210 in mid-session, file names of every length up to the header limits; a zero-length chunk before a 0x1212 (known finding), a 0x1212 for a never announced file after a real one (known finding), names with NUL bytes in the middle (normal uploads, direct oracle), NUL-ended file names (correspondence only), 126..255 single-byte gaps (0x9212 bodies over 1023 bytes: correspondence of the bytes only); each stream fed unit by unit, coalesced into one read, with every 1-cut (short streams), byte by byte (short streams) and random k-cuts; plus malformed streams (garbage, truncated frames, unknown ids, chunks of unknown files, bad 0x1210 bodies) for the correspondence. A case is non-trivial when the stream holds at least one chunk and one control frame; distinct = distinct request lines"
 	rng := c.Rng
 
 	randName := func(d int, i int) []byte {
 		var n []byte
-		switch rng.Intn(5) {
+		switch rng.Intn(6) {
+		case 5: // NUL bytes INSIDE the name (the header field is NUL padded and trimmed at its ends only)
+			n = []byte{byte('p' + i), 0, 'q', 0, 0, byte('r' + i)}
 		case 0:
 			n = []byte(fmt.Sprintf("file_%d.jpg", i))
 		case 1: // contains the chunk marker
@@ -497,6 +499,23 @@ func c15(c *Ctx) {
 			}
 		}
 		play(s, "random", !c.Quick())
+	}
+
+	// (1c) announced names with NUL bytes in the MIDDLE, in normal uploads with chunks, every dialect: the fixed header field
+	// is NUL padded to 50 bytes and trimmed at both ends, the HLJ field carries its length - an interior NUL belongs to the name
+	for _, d := range AttDialects {
+		for ni, nm := range [][]byte{{'a', 0, 'b'}, {1, 0, 0, 2}, {'x', 0}, {0x30, 0x31, 0x63, 0x64, 0, 'z'}, append(append(bytes.Repeat([]byte{'k'}, 24), 0), bytes.Repeat([]byte{'k'}, 25)...)} {
+			if len(nm) == 2 { // "x\x00" ends in NUL: outside the domain; made interior by a suffix
+				nm = append(nm, 'y')
+			}
+			s := newSession(2, []int{9, 3}, []int{4, 64})
+			s.d = d
+			s.files[0].name = nm
+			s.files[1].name = []byte{'z', byte('0' + ni)}
+			s.units = append(s.units, ctrl(s, 0x1210, 0), ctrl(s, 0x1211, 0), chunk(s, 0, 1), ctrl(s, 0x1212, 0),
+				chunk(s, 1, 0), chunk(s, 0, 0), chunk(s, 0, 2), chunk(s, 0, 1), ctrl(s, 0x1212, 0), ctrl(s, 0x1212, 1))
+			play(s, "interior-nul", false)
+		}
 	}
 
 	// (2b) non-uniform splits (random cut points) and a second 0x1210 in mid-session (every Package starts again)
